@@ -125,12 +125,20 @@ impl<VM: VMBinding> PageResource<VM> for FreeListPageResource<VM> {
                 // after ensure_mapped(). However, I think this is sufficient given that this option is only used for PageProtect for debugging use.
                 while !new_chunk && !MMAPPER.is_mapped_address(rtn) {}
                 self.munprotect(rtn, sync.free_list.size(page_offset as _) as _)
-            } else if !self.common.contiguous && new_chunk {
-                // Don't unprotect if this is a new unmapped discontiguous chunk
-                // For a new mapped discontiguous chunk, this should previously be released and protected by us.
-                // We still need to unprotect it.
-                if MMAPPER.is_mapped_address(rtn) {
-                    self.munprotect(rtn, sync.free_list.size(page_offset as _) as _)
+            } else {
+                // Don't unprotect the unmapped part of a new chunk.
+                // The mapped part should previously be released and protected by us: a discontiguous chunk that
+                // was freed and allocated again, or, in a contiguous space, pages above the high-water mark
+                // (which records where the highest allocation started) that an earlier multi-chunk allocation
+                // covered. We still need to unprotect it, chunk by chunk.
+                let end = rtn + conversions::pages_to_bytes(sync.free_list.size(page_offset as _) as _);
+                let mut cursor = rtn;
+                while cursor < end {
+                    let next = (conversions::chunk_align_down(cursor) + BYTES_IN_CHUNK).min(end);
+                    if MMAPPER.is_mapped_address(cursor) {
+                        self.munprotect(cursor, conversions::bytes_to_pages_up(next - cursor));
+                    }
+                    cursor = next;
                 }
             }
         };
